@@ -701,7 +701,7 @@ def internal_unreachable(ctx):
             a = audit.get("panic|" + b.path)
             if b.path == "<op_sequence::SequenceIterator as std::iter::Iterator>::next":
                 # dominated by backtracking_limit is Some; the field's only stores are None
-                dom = any("a1.backtracking_limit" in g and "=Some" in g for g in gs)
+                dom = any(("a1.backtracking_limit" in g and "=Some" in g) or strip_ver(g).startswith("Option::is_some_and(a1.backtracking_limit") or strip_ver(g).startswith("isSome(a1.backtracking_limit") for g in gs)
                 stores = _stores_of_field(ctx, "backtracking_limit")
                 only_none = stores and all(v in ("Option::None",) or v.endswith(".backtracking_limit") for v in stores)
                 if dom and only_none:
